@@ -71,9 +71,30 @@ BindOrCheck(t, v, s) ==   \* t is a variable or constant term; v a value
        ELSE IF t[2] \in DOMAIN s THEN (IF s[t[2]] = v THEN {s} ELSE {}) ELSE {Ext(s, t[2], v)}
   ELSE IF EvalTerm(t, s) = v THEN {s} ELSE {}
 
+\* Allen-style relations on closed intervals given as pairs <<"pair", Num(lo), Num(hi)>>
+\* (readthedocs/temporal.md, table "Allen's Interval Relations")
+IsIv(v) == IsVal(v) /\ IsPair(v) /\ IsNum(v[2]) /\ IsNum(v[3])
+IntervalNames == {":interval:before", ":interval:after", ":interval:meets", ":interval:overlaps", ":interval:during",
+                  ":interval:contains", ":interval:starts", ":interval:finishes", ":interval:equals"}
+RECURSIVE IvRel(_, _, _)
+IvRel(name, i, j) ==
+  LET lo1 == i[2][2]  hi1 == i[3][2]  lo2 == j[2][2]  hi2 == j[3][2] IN
+  CASE name = ":interval:before"   -> hi1 < lo2
+    [] name = ":interval:after"    -> IvRel(":interval:before", j, i)
+    [] name = ":interval:meets"    -> hi1 = lo2
+    [] name = ":interval:overlaps" -> lo1 <= hi2 /\ lo2 <= hi1
+    [] name = ":interval:during"   -> lo1 >= lo2 /\ hi1 <= hi2
+    [] name = ":interval:contains" -> IvRel(":interval:during", j, i)
+    [] name = ":interval:starts"   -> lo1 = lo2
+    [] name = ":interval:finishes" -> hi1 = hi2
+    [] name = ":interval:equals"   -> lo1 = lo2 /\ hi1 = hi2
+
 BuiltinSols(name, args, s) ==
   LET scrut == EvalTerm(args[1], s) IN
-  CASE name = ":match_pair" ->
+  CASE name \in IntervalNames ->
+         LET j == EvalTerm(args[2], s) IN
+         IF IsIv(scrut) /\ IsIv(j) /\ IvRel(name, scrut, j) THEN {s} ELSE {}
+    [] name = ":match_pair" ->
          IF IsVal(scrut) /\ IsPair(scrut)
          THEN UNION {BindOrCheck(args[3], scrut[3], s1) : s1 \in BindOrCheck(args[2], scrut[2], s)}
          ELSE {}
@@ -262,6 +283,7 @@ ErrLit(l, s) ==
          CASE l[2] = ":list:member" ->
                 LET m == EvalTerm(l[3][1], s)  lst == EvalTerm(l[3][2], s) IN
                 ~IsVal(lst) \/ (IsVal(m) /\ ~IsList(lst))
+           [] l[2] \in IntervalNames -> ~IsIv(EvalTerm(l[3][1], s)) \/ ~IsIv(EvalTerm(l[3][2], s))
            [] l[2] \in {":match_pair", ":match_cons"} ->
                 OutputTaken(l[3][2], s) \/ OutputTaken(l[3][3], s) \/ ~IsVal(EvalTerm(l[3][1], s))
            [] OTHER -> ~IsVal(EvalTerm(l[3][1], s))
